@@ -1,0 +1,23 @@
+//go:build verif
+
+package config
+
+// Contracts for the verification machinery in /verif (build tag "verif").
+
+//@ func ClusterConfig.fix
+//@   arith int
+//@   properties C15
+//@   requires nonnil: cc != nil
+//@   modifies heap
+//@   ensures lease_bounds: result == nil ==> 3 * 1000000000 <= cc.LeaseTimeout && cc.LeaseTimeout <= 600 * 1000000000
+//@   ensures renew_bounds: result == nil ==> 1000000000 <= cc.LeaseRenewInterval && 3 * cc.LeaseRenewInterval <= cc.LeaseTimeout
+//@   ensures ttl_seconds: result == nil ==> cc.LeaseTimeout / 1000000000 >= 3
+
+//@ func errors.Join(errs) (err)
+//@   trusted library contract: the join of a list is nil iff every element is nil
+//@   ensures nil_iff_all_nil: (err == nil) <==> (forall j int :: 0 <= j && j < len(errs) ==> errs[j] == nil)
+
+//@ func newConfigError
+//@   arith int
+//@   properties C15
+//@   ensures nonnil: result != nil
